@@ -602,6 +602,7 @@ def _parse_transf_v33(raw, system, max_bus):
                          'b': data[0][8],
                          'r': r[i],
                          'x': x[i],
+                         'Sn': system.config.mva,   # star impedances are in per unit on the system base
                          'tap': data[2+i][0],
                          'phi': data[2+i][2] * deg2rad,
                          'Vn1': system.Bus.get(src='Vn', idx=data[0][i], attr='v'),
